@@ -54,7 +54,7 @@ func IsChallenge(kind string) bool {
 // response alphabet of the property's quantifier
 var alphabet = []string{"200", "401-negotiate", "401-reject-token", "401-basic", "302-same", "302-other", "500"}
 
-var hosts = []string{"host.sim.test", "alias.sim.test", "host.sim.test:8080", "host.sim.test.", "nodns.sim.test", "UPPER.sim.test", "far.other.test"}
+var hosts = []string{"host.sim.test", "alias.sim.test", "host.sim.test:8080", "host.sim.test.", "nodns.sim.test", "UPPER.sim.test", "far.other.test", "NoDNS.sim.test"}
 var etypes = []int{18, 17, 19, 20, 16, 23}
 
 func pow(b, e int) int {
